@@ -6,13 +6,19 @@ import json, subprocess, sys, os, re
 root = os.path.dirname(os.path.dirname(os.path.abspath(__file__)))
 sid, chk = sys.argv[1], sys.argv[2]
 text = sys.argv[3] if len(sys.argv) > 3 else None
+p = os.path.join(root, "seeded", sid, "meta.json")
+m0 = open(p).read()
+m = json.loads(m0)
+if chk not in (m.get("caught_by") or [m["property"]]):  # selftest only runs seeds that name the check
+    m["caught_by"] = (m.get("caught_by") or []) + [chk]
+    json.dump(m, open(p, "w"), indent=1)
 out = subprocess.run(["python3", "run.py", "selftest", chk, "seeded/" + sid], cwd=root, capture_output=True, text=True).stdout
-print(out.strip().splitlines()[-1])
+print((out.strip().splitlines() or ["(no output)"])[-1])
 det = re.search(r"\bdetected \(exit 1", out) is not None
 if not det:
+    open(p, "w").write(m0)
     sys.exit("not detected: meta unchanged")
-p = os.path.join(root, "seeded", sid, "meta.json")
-m = json.load(open(p))
+m = json.loads(m0)
 own = m["property"]
 c = m.setdefault("checks", {}).setdefault(chk, {})
 first = "missed" if (chk == own and c.get("detected") is False) or (text and chk == own) else c.get("first_run")
